@@ -2,7 +2,8 @@
    (openapi3filter/req_resp_decoder.go UrlencodedBodyDecoder, decodeSchemaConstructs, decodeProperty):
    every declared property is decoded from the parsed form as a query parameter of style form,
    explode true (the default Encoding); a property that fails to decode or is not carried is left
-   out.  Not modelled: allOf/anyOf/oneOf in the body schema, per-property Encoding objects. *)
+   out.  Not modelled: allOf/anyOf/oneOf in the body schema; of the per-property Encoding Object only
+   the serialisation method it stands for (enc_method below). *)
 From KV Require Import Model.Base Model.Json Model.Schema Model.Request Model.ParamCodec.
 Local Open Scope list_scope.
 
@@ -35,3 +36,14 @@ Section FORM.
                              end) props [])
     end.
 End FORM.
+
+(* Encoding.SerializationMethod (openapi3/encoding.go): the style and explode flag one property of a
+   form body is decoded with - style form when none is written, explode true when none is written *)
+Definition enc_method (style : string) (explode : option bool) : string * bool :=
+  (if String.eqb style "" then "form" else style, match explode with Some b => b | None => true end).
+
+(* the Encoding Object of the specification: "style ... default form"; "explode ... When style is
+   form, the default value is true. For all other styles, the default value is false." *)
+Definition enc_method_spec (style : string) (explode : option bool) : string * bool :=
+  let st := if String.eqb style "" then "form" else style in
+  (st, match explode with Some b => b | None => String.eqb st "form" end).
